@@ -49,6 +49,9 @@ func TestDebugScript(t *testing.T) {
 		sc = append(sc, schedEv{op: op, kind: e[i], slot: slot})
 	}
 	o := runOpts{cancel: os.Getenv("C19_CANCEL"), racy: os.Getenv("C19_RACY") == "1", wire: os.Getenv("C19_WIRE") == "1"}
+	if v := os.Getenv("C19_GATE"); v != "" {
+		o.gateAt, _ = strconv.Atoi(v)
+	}
 	if o.cancel == "" {
 		o.cancel = "v2"
 	}
